@@ -126,6 +126,7 @@ class Interp:
         self.trace = []  # (expr text, truth) of atoms consulted, for diagnostics
         self.assert_is_effect = assert_is_effect
         self.watch = set(watch)  # call names recorded as ("CALL", name, call) even inside values
+        self.fresh = {}  # locals bound to fresh container displays (kept symbolic)
 
     # ------------------------------------------------------------- expressions
     def sub(self, expr):
@@ -360,6 +361,12 @@ class Interp:
         return _Subst(self.env).visit(s)
 
     def _assign(self, target, val, st):
+        if isinstance(target, ast.Name) and isinstance(val, (ast.Dict, ast.List, ast.Set)):
+            # a fresh mutable container is an object with identity: keep its name symbolic
+            # (copy propagation of the display would lose later in-place mutation)
+            self.fresh[target.id] = val
+            self.env.pop(target.id, None)
+            return
         if isinstance(target, ast.Name):
             if self.effects and not isinstance(val, (ast.Constant, ast.Name)) and not (
                 isinstance(val, ast.Call)
